@@ -349,3 +349,11 @@ mod tests {
         assert_eq!(STATIC_TMAX.capacity(), 3);
     }
 }
+
+#[cfg(dashu_verif)]
+impl UBig {
+    /// Verification hook, see `Repr::verif_layout`.
+    pub fn verif_layout(&self) -> (isize, usize, [crate::Word; 2], usize) {
+        self.0.verif_layout()
+    }
+}
